@@ -1233,30 +1233,30 @@ type relBinned struct {
 	n        int64
 }
 
-func (b *relBinned) GetName() string           { return b.name }
-func (b *relBinned) GetRenamed() string        { return "" }
-func (b *relBinned) GetPrev() string           { return "" }
-func (b *relBinned) GetFileTime() time.Time    { return time.Time{} }
-func (b *relBinned) GetFileHash() string       { return b.hash }
-func (b *relBinned) GetFileSize() int64        { return b.sendSize + 1000000 }
-func (b *relBinned) GetSendSize() int64        { return b.sendSize }
-func (b *relBinned) GetSlice() (int64, int64)  { return 0, b.n }
+func (b *relBinned) GetName() string          { return b.name }
+func (b *relBinned) GetRenamed() string       { return "" }
+func (b *relBinned) GetPrev() string          { return "" }
+func (b *relBinned) GetFileTime() time.Time   { return time.Time{} }
+func (b *relBinned) GetFileHash() string      { return b.hash }
+func (b *relBinned) GetFileSize() int64       { return b.sendSize + 1000000 }
+func (b *relBinned) GetSendSize() int64       { return b.sendSize }
+func (b *relBinned) GetSlice() (int64, int64) { return 0, b.n }
 
 type relPayload struct {
 	parts []sts.Binned
 	t     time.Time
 }
 
-func (p *relPayload) Add(sts.Binnable) bool             { return false }
-func (p *relPayload) Remove(sts.Binned)                 {}
-func (p *relPayload) IsFull() bool                      { return true }
-func (p *relPayload) Split(int) sts.Payload             { return nil }
-func (p *relPayload) GetSize() int64                    { return 1 }
-func (p *relPayload) GetParts() []sts.Binned            { return p.parts }
-func (p *relPayload) EncodeHeader() ([]byte, error)     { return nil, nil }
-func (p *relPayload) GetEncoder() io.ReadCloser         { return nil }
-func (p *relPayload) GetStarted() time.Time             { return p.t }
-func (p *relPayload) GetCompleted() time.Time           { return p.t }
+func (p *relPayload) Add(sts.Binnable) bool         { return false }
+func (p *relPayload) Remove(sts.Binned)             {}
+func (p *relPayload) IsFull() bool                  { return true }
+func (p *relPayload) Split(int) sts.Payload         { return nil }
+func (p *relPayload) GetSize() int64                { return 1 }
+func (p *relPayload) GetParts() []sts.Binned        { return p.parts }
+func (p *relPayload) EncodeHeader() ([]byte, error) { return nil, nil }
+func (p *relPayload) GetEncoder() io.ReadCloser     { return nil }
+func (p *relPayload) GetStarted() time.Time         { return p.t }
+func (p *relPayload) GetCompleted() time.Time       { return p.t }
 
 func (e *relExec) doTrack(arg string) string {
 	var payloads []sts.Payload
